@@ -14,7 +14,7 @@ import (
 func init() { register("C16", propC16) }
 
 func propC16(w *World, r *Report) {
-	r.Explanation = "Decided clause: (R1) lock consistency: for every global of cmd/thermal-recorder and every field of a repo-defined struct reachable from more than one goroutine root (main frame loop, `go` statements, D-Bus exported methods — each D-Bus method also concurrent with itself), all conflicting accesses (at least one write) share a mutex or are all sync/atomic; (R2) CopyRecent reads the slot before the current one under the lock Move holds and returns a fresh copy; (R3) every write into a slot of the pre-trigger ring by the frame loop targets Current() (so, for capacity >= 2, never the slot CopyRecent reads; the lock hand-over orders the completed fill before the copy); (R4) the snapshot requesters hold the package mutex for their whole body. Rule: Eraser-style must-lockset dataflow over the call graph per goroutine root, with 1-level receiver sensitivity for FrameLoop and the usual ownership exemption for objects under construction."
+	r.Explanation = "Decided clause: (R1) lock consistency: for every global of cmd/thermal-recorder and every field of a repo-defined struct reachable from more than one goroutine root (main frame loop, `go` statements, D-Bus exported methods — each D-Bus method also concurrent with itself), all conflicting accesses (at least one write) share a mutex or are all sync/atomic; (R2) CopyRecent reads the slot before the current one under the lock Move holds and returns a fresh copy; (R3) every write into a slot of the pre-trigger ring by the frame loop targets Current() (so, for capacity >= 2, never the slot CopyRecent reads; the lock hand-over orders the completed fill before the copy); (R4) the snapshot requesters hold the package mutex for their whole body and never wait while holding it; every mutex acquired in the daemon / motion package is released on every path (no return with it possibly held, no second acquisition while held); on the request side a pointer the frame loop publishes per connection is used only where it was found non-nil. Rule: Eraser-style must-lockset dataflow over the call graph per goroutine root, with 1-level receiver sensitivity for FrameLoop and the usual ownership exemption for objects under construction."
 	r.RuleText = "obligation per shared location (R1) and per structural site (R2-R4)"
 	r.Assumptions = []string{"locations are globals and fields of repo-defined types; pixel contents of cptvframe.Frame (dependency heap) are covered by R2+R3, not by locksets",
 		"capacity 1 (preview-secs 0 and trigger-frames 1) makes Current() and the 'previous' slot coincide: configuration, not schedule; not decided",
